@@ -308,7 +308,7 @@ def analyse(o, v, tag=''):
 
 def check(case, exclude=True):
     res = Result()
-    if exclude and is_open('F24') and any(t['name'].lstrip().startswith('section ') for t in case['spec']['tasks']):
+    if exclude and is_open('F24') and any(t['name'].replace(':', '').lstrip().startswith('section ') for t in case['spec']['tasks']):
         res.skipped = True
         res.excluded.append('F24')
         return res
@@ -321,8 +321,13 @@ def check(case, exclude=True):
     names = [t['name'] for t in case['spec']['tasks']]
     # ---- metamorphic: names replaced by "x"
     if not res.viol:
+        charts = render_all(o.sw)
+        shown_before = [c._repr_html_() for c in charts]          # a notebook shows the charts ...
         for t in o.sw.tasks:
-            t.name = 'x'
+            t.name = 'x'                                          # ... the plan is edited ...
+        for c, kind in zip(charts, ('mermaid-gantt', 'mermaid-network', 'dhtmlx')):
+            if c._repr_html_() != WRAP.format(html=escape(c.to_html()), height=c.height):      # ... and shown again
+                res.v('C19:%s-notebook-representation-of-a-reused-chart-is-not-the-escaped-document' % kind, None)
         quiet = lambda *args: None
         b = analyse(o, quiet)
         for k in a:
